@@ -15,7 +15,7 @@ from ..program import Interp
 from ..streams import Stream, digest, h64
 
 SELFTEST_ARG = {"pid": "C13", "tier": "quick", "light": True}
-TIERS = {"quick": (170, 32), "thorough": (6000, 1700)}
+TIERS = {"quick": (210, 32), "thorough": (6000, 1700)}
 METHODS = ["SLSQP", "L-BFGS-B", "Nelder-Mead", "Powell"]
 FAULTS = ["real", "stall", "wander", "wander_after_real", "degenerate"]
 
@@ -57,7 +57,7 @@ def gen_scenario(seed: int, light: bool = False) -> Dict[str, Any]:
     sc: Dict[str, Any] = {"kind": kind, "seed": seed}
     jit = rs.pick([0.05, 0.12, 0.2])
     if kind == "mesh":
-        dims = rs.pick([(2, 2, 1), (2, 2, 2), (3, 2, 1)] if not light else [(2, 2, 1), (2, 1, 1)])
+        dims = rs.pick([(2, 2, 1), (2, 2, 1), (2, 1, 1), (2, 2, 2), (3, 2, 1)] if not light else [(2, 2, 1), (2, 1, 1)])
         nodes = {}
         for i in range(dims[0] + 1):
             for j in range(dims[1] + 1):
@@ -66,7 +66,7 @@ def gen_scenario(seed: int, light: bool = False) -> Dict[str, Any]:
         cells = [(i, j, k) for i in range(dims[0]) for j in range(dims[1]) for k in range(dims[2])]
         sc["dims"] = dims
     else:
-        dims = rs.pick([(3, 3), (4, 3), (2, 2)] if not light else [(2, 2), (3, 2)])
+        dims = rs.pick([(3, 3), (4, 3), (2, 2), (3, 2)] if not light else [(2, 2), (3, 2)])
         nodes = {}
         for i in range(dims[0] + 1):
             for j in range(dims[1] + 1):
@@ -205,7 +205,7 @@ def gen_scenario(seed: int, light: bool = False) -> Dict[str, Any]:
     # "swing": the leader sits on a small circle (RadialClamp) whose far side is where it wants to
     # be, and a follower is tied to it by a RotationLink about the same axis - the leader then turns
     # far more than a quarter turn
-    if kind == "mesh" and not light and rs.chance(0.12) and len(names) > 2:
+    if kind == "mesh" and not light and rs.chance(0.22) and len(names) > 2:
         nme = rs.pick(names)
         p = np.array(sc["nodes"][nme])
         ideal = np.array([float(x) for x in nme.split("_")])
